@@ -287,15 +287,19 @@ class Rule_CV12(BaseRule):
                 ],
             )
         else:
-            assert select_statement.segments[-1].is_type("where_clause")
-            assert select_statement.segments[-2].is_type("whitespace", "newline")
-            yield LintResult(
-                anchor=where_clause,
-                fixes=[
-                    LintFix.delete(select_statement.segments[-2]),
-                    LintFix.delete(select_statement.segments[-1]),
-                ],
-            )
+            # Remove the whole WHERE clause, along with the whitespace which
+            # precedes it (if any). NOTE: It isn't necessarily the last clause
+            # of the statement (e.g. an ORDER BY could follow it) and it isn't
+            # necessarily preceded by whitespace (e.g. a comment could be).
+            preceding = None
+            for seg in select_statement.segments:
+                if seg is where_clause:
+                    break
+                preceding = seg
+            fixes = [LintFix.delete(where_clause)]
+            if preceding and preceding.is_type("whitespace", "newline"):
+                fixes.insert(0, LintFix.delete(preceding))
+            yield LintResult(anchor=where_clause, fixes=fixes)
 
     @staticmethod
     def _get_from_expression_element_alias(from_expr_element: BaseSegment) -> str:
